@@ -77,13 +77,24 @@ type Exec struct {
 
 func NewExec(p *Program, w *World, prefix string) *Exec {
 	w.ModPath = p.ModPath
+	modulePath = p.ModPath
 	curWorld = w
+	fullyReadonlyCallee = func(fn *types.Func) bool {
+		fi := p.ByObj[fn]
+		if fi == nil {
+			return false
+		}
+		if fc := p.Contracts.Funcs[fi.Key]; fc != nil && (fc.Flags["readonly"] || fc.Flags["pure"]) {
+			return true
+		}
+		return p.IsReadonly(fi)
+	}
 	readonlyCallee = func(fn *types.Func) bool {
 		fi := p.ByObj[fn]
 		if fi == nil {
 			return false
 		}
-		return p.IsReadonly(fi)
+		return p.IsRecvReadonly(fi)
 	}
 	return &Exec{P: p, W: w, prefix: prefix, names: map[string]int{}, globals: map[types.Object]Term{}}
 }
@@ -947,6 +958,23 @@ func (x *Exec) getFieldPath(cur Term, t types.Type, path []int) (Term, bool) {
 // ---------------------------------------------------------------------
 // loops
 
+// fullyReadonlyCallee: callee known not to write through its receiver or any pointer/map parameter.
+var fullyReadonlyCallee func(*types.Func) bool
+
+// isLibraryStruct: named struct type declared outside the module (modelled as an opaque sort).
+var modulePath string
+
+func isLibraryStruct(t types.Type) bool {
+	n, ok := t.(*types.Named)
+	if !ok {
+		return false
+	}
+	if _, isStruct := n.Underlying().(*types.Struct); !isStruct {
+		return false
+	}
+	return n.Obj().Pkg() != nil && modulePath != "" && !strings.HasPrefix(n.Obj().Pkg().Path(), modulePath)
+}
+
 // readonlyCallee is installed by the driver: callee known not to write through receiver/pointer parameters.
 var readonlyCallee func(*types.Func) bool
 
@@ -1027,11 +1055,46 @@ func assignedVars(info *types.Info, n ast.Node, closures map[types.Object]*ast.F
 						}
 					}
 				}
+				// calls of function VALUES are modelled as pure uninterpreted functions of their arguments
+				isFuncValue := false
+				if id, ok := ast.Unparen(s.Fun).(*ast.Ident); ok {
+					if _, isVar := info.Uses[id].(*types.Var); isVar {
+						isFuncValue = true
+					}
+					if _, isBuiltin := info.Uses[id].(*types.Builtin); isBuiltin {
+						isFuncValue = true // builtins never write through pointer arguments (copy/delete are handled above)
+					}
+				}
+				if tv, isT := info.Types[s.Fun]; isT && tv.IsType() {
+					isFuncValue = true // conversion
+				}
+				// callee known (by its contract flag or the frame analysis) not to write through pointers
+				roCallee := false
+				var calleeFn *types.Func
+				switch f := ast.Unparen(s.Fun).(type) {
+				case *ast.Ident:
+					calleeFn, _ = info.Uses[f].(*types.Func)
+				case *ast.SelectorExpr:
+					if sel, ok := info.Selections[f]; ok {
+						calleeFn, _ = sel.Obj().(*types.Func)
+					} else {
+						calleeFn, _ = info.Uses[f.Sel].(*types.Func)
+					}
+				}
+				if calleeFn != nil && fullyReadonlyCallee != nil && fullyReadonlyCallee(calleeFn) {
+					roCallee = true
+				}
 				for _, a := range s.Args {
+					if isFuncValue || roCallee {
+						break
+					}
 					if u, ok := a.(*ast.UnaryExpr); ok && u.Op == token.AND {
 						mark(u.X)
 					} else if t := info.TypeOf(a); t != nil {
-						if _, isPtr := t.Underlying().(*types.Pointer); isPtr {
+						if pt, isPtr := t.Underlying().(*types.Pointer); isPtr {
+							if isLibraryStruct(pt.Elem()) {
+								continue // opaque library value: not part of the modelled state (A9)
+							}
 							mark(a)
 						}
 					}
@@ -1307,6 +1370,7 @@ func (x *Exec) execRange(s *ast.RangeStmt, env *Env, label string) *Env {
 		return info.Uses[id]
 	}
 	keyObj, valObj = getObj(s.Key), getObj(s.Value)
+	bodyAssignsVal := valObj != nil && mod[valObj]
 	switch u := derefType(xt).Underlying().(type) {
 	case *types.Slice, *types.Array:
 		var n Term
@@ -1343,6 +1407,19 @@ func (x *Exec) execRange(s *ast.RangeStmt, env *Env, label string) *Env {
 		auto := func(e *Env) Term {
 			return And(Cmp("<=", IntLit(0), e.vars[idx]), Cmp("<=", e.vars[idx], n))
 		}
+		// for _, p := range ptrs { p.f = v }: the element is a pointer, writes through the range variable mutate the
+		// pointee, which is the slice element in the owned-box model: write the final value back into the slice.
+		writeBack := false
+		if valObj != nil {
+			if _, isPtr := et.Underlying().(*types.Pointer); isPtr && bodyAssignsVal && isAddressable(s.X) {
+				if _, isSl := u.(*types.Slice); isSl {
+					writeBack = true
+					for o := range assignedVars(info, &ast.AssignStmt{Lhs: []ast.Expr{s.X}, Tok: token.ASSIGN, Rhs: []ast.Expr{s.X}}, nil) {
+						mod[o] = true
+					}
+				}
+			}
+		}
 		return x.execLoopCommon(s, s.Body.Lbrace, env, label, mod, auto,
 			func(e *Env) Term { return Cmp("<", e.vars[idx], n) },
 			func(e *Env) *Env {
@@ -1350,13 +1427,32 @@ func (x *Exec) execRange(s *ast.RangeStmt, env *Env, label string) *Env {
 				if keyObj != nil {
 					e.vars[keyObj] = i
 				}
+				var elem0 Term
 				if valObj != nil {
-					v := at(i)
+					var v Term
+					if writeBack {
+						cur := x.eval(s.X, e)
+						v = x.W.SeqAt(cur, i)
+					} else {
+						v = at(i)
+					}
 					v.GoT = et
 					x.typeFacts(v, et, e.pc)
 					e.vars[valObj] = v
+					elem0 = v
 				}
-				return x.execBlock(s.Body.List, e)
+				out := x.execBlock(s.Body.List, e)
+				if writeBack && out != nil {
+					if nv := out.vars[valObj]; nv.S != elem0.S {
+						cur := x.eval(s.X, out)
+						nb := Store(x.W.SeqBase(cur), Arith("+", x.W.SeqOff(cur), i), nv)
+						ns, _ := x.W.WithField(cur, "base", nb)
+						ns.GoT = cur.GoT
+						ns = x.seqUpdateFacts(ns, cur, i, nv)
+						x.assign(s.X, ns, out)
+					}
+				}
+				return out
 			},
 			func(e *Env) *Env {
 				e.vars[idx] = Arith("+", e.vars[idx], IntLit(1))
